@@ -549,6 +549,10 @@ class Monitors(Listener):
                 self.viol("C04", "machines-not-all-available-at-end", str(cv["available"]))
             if sim.scheduler.observation_queue:
                 self.viol("C04", "queue-not-empty-at-end", "")
+            if sim.scheduler.provision_ingest != 0:
+                for pr in ("C04", "C05", "C08"):
+                    self.viol(pr, "ingest-reservation-outstanding-at-end",
+                              "scheduler.provision_ingest == %s after the run completed" % sim.scheduler.provision_ingest)
             if hot.current_capacity != hot.total_capacity or cold.current_capacity != cold.total_capacity:
                 self.viol("C04", "buffers-not-empty-at-end", "")
                 self.viol("C07", "buffers-not-full-free-at-end", "hot %s/%s cold %s/%s" % (
@@ -599,7 +603,10 @@ class Monitors(Listener):
                     r["hot_buffer"] == fr(self.sim.buffer.hot[0].total_capacity) and
                     r["cold_buffer"] == fr(self.sim.buffer.cold[0].total_capacity) and
                     r["available_resources"] == self.total_machines)
-            others_due = [x for x in tel.observations if x is not o and math.ceil(x.est) == due]
+            # another observation that is also due and still waiting at that step competes
+            # for the same resources: the system is then not "completely idle" for o
+            others_due = [x for x in tel.observations if x is not o and math.ceil(x.est) <= due
+                          and (x.ast is None or x.ast >= due)]
             none_running = (r["observations_waiting"] + r["observations_finished"] == len(tel.observations))
             if idle and none_running and not others_due and self.feasible_alone(o):
                 if o.ast != due:
